@@ -134,7 +134,7 @@ func (x *XMLWtr2) writeFieldElement(m meta.Definition, v val.Value) error {
 	case val.FmtIdentityRef:
 		id := v.String()
 		leafMod := meta.NamespaceModule(m)
-		bases := m.(meta.HasType).Type().Base()
+		bases := m.(meta.HasType).Type().IdentityBases()
 		idty := meta.FindIdentity(bases, id)
 		if idty == nil {
 			return fmt.Errorf("could not find ident '%s'", id)
